@@ -12,7 +12,8 @@ CUTS = [r'^_ZNSt7__cxx119to_stringEm$', r'^_ZStplIcSt11char_traitsIcESaIcEENSt7_
 UNITS = {'json': dict(wrap='wrap.cc', shim=True, new_block=96, cxxflags=['-DVERIF_UMAP_CAP=2'], cuts=CUTS, ir2c_flags=['--union-fp-bytes'])}
 
 BOUNDS = ('JSON::parse on templated documents (h_tmpl.c): concrete skeleton + trailing symbolic holes of one lexical class each (WS, digit, letter), parser mode a concrete cell: '
-          '19 templates x 2 modes (7 x 2 in the quick tier), every value of the holes; '
+          '19 templates x 2 modes (7 x 2 in the quick tier), every value of the holes; plus exponent-plus-sign templates 1e+D, -2.5E+D, 7e+2 WS and fully concrete '
+          'one-member dictionaries {"a":7} {"a":t} {"a":0x1C} {"a":7,} (mode a cell); '
           'skip_whitespace_and_comments: every input of length 0..6 (quick) / 0..8 (thorough) over all 256 byte values, both modes; '
           'StringReader get_s8 / pget_s8 / eof / skip_if: buffers of 0..6 bytes, every start offset 0..LEN, pget offsets 0..LEN+1, '
           'literal lengths 1, 4, 5 (the lengths JSON::parse uses) with symbolic literal bytes; value_for_hex_char: all 256 bytes. '
